@@ -63,6 +63,37 @@ type ShardResult struct {
 	Extra       map[string]interface{} `json:"extra,omitempty"`
 }
 
+// runProp runs one case.  When the library under test starts goroutines or
+// timers of its own (the rewriter says so), every case - not only C11's -
+// runs as task 0 of a seeded scheduler: the library's goroutines become tasks
+// that are interleaved with the harness at every instruction, lock and
+// channel operation, deterministically, and go on living across the API calls
+// of the case as real ones would.
+func runProp(p Prop, c *verifsim.Chooser, st *Stats, render bool) *Outcome {
+	verifsim.ResetTime()
+	if !verifsim.LibrarySpawns || p.ID() == "C11" || p.ID() == "SIMTEST" {
+		return p.Run(c, st, render)
+	}
+	var o *Outcome
+	s := verifsim.NewSched(c, 20000000)
+	s.StopWhen = s.Go(func() { o = p.Run(c, st, render) })
+	s.Run()
+	st.probe("case-run-under-the-scheduler(library starts goroutines)")
+	if s.Spawned > 0 {
+		st.fault("library-goroutine-interleaved")
+	}
+	if o == nil {
+		o = &Outcome{}
+		what := "did not finish"
+		if s.Deadlock {
+			what = "is blocked for ever together with every goroutine the library started (deadlock)"
+		}
+		o.violate(p.ID()+"/hang", "with-library-goroutines", "the harness task %s; %d goroutines were started by the library, %d scheduling steps", what, s.Spawned, s.Steps)
+		o.Poisoned = true
+	}
+	return o
+}
+
 func makeProp(id string) Prop {
 	switch id {
 	case "C09":
@@ -124,7 +155,7 @@ func minimise(p Prop, trace []int32, class, sig string, deadline time.Time) []in
 		if minimiseTick != nil {
 			minimiseTick()
 		}
-		o := p.Run(verifsim.NewReplay(t), st, false)
+		o := runProp(p, verifsim.NewReplay(t), st, false)
 		return hasViolation(o, class, sig)
 	}
 	cur := append([]int32(nil), trace...)
@@ -293,7 +324,7 @@ func main() {
 			json.Unmarshal(b, &tr)
 			c = verifsim.NewReplay(tr)
 		}
-		o := p.Run(c, newStats(), true)
+		o := runProp(p, c, newStats(), true)
 		b, _ := json.Marshal(map[string]interface{}{"digest": o.Digest.H, "nontrivial": o.Nontrivial, "ticks": o.Ticks, "violations": o.V, "trace": c.Values(), "sample": o.Sample})
 		fmt.Println(string(b))
 		return
@@ -313,7 +344,7 @@ func main() {
 			}
 		}()
 		c := chooserFor(p, *base, enum, *oneCase)
-		o := p.Run(c, newStats(), true)
+		o := runProp(p, c, newStats(), true)
 		rf := &ReplayFile{Property: p.ID(), Base: *base, Tier: *tier, CaseIndex: *oneCase, Trace: c.Values(), Rendering: o.Sample}
 		if len(o.V) > 0 {
 			rf.Class, rf.Signature, rf.Detail = o.V[0].Class, o.V[0].Sig, o.V[0].Detail
@@ -427,7 +458,7 @@ func main() {
 		wantSample := len(res.Samples) < 4 && (res.Evaluations%sampleEvery) == sampleEvery/2
 		caseStart.Store(time.Now().UnixNano())
 		caseNo.Store(int64(i))
-		o := p.Run(c, st, wantSample)
+		o := runProp(p, c, st, wantSample)
 		caseNo.Store(-1)
 		resMu.Lock()
 		res.Evaluations++
@@ -481,7 +512,7 @@ func main() {
 			}
 			minSpent += time.Since(t0)
 			minimiseTick()
-			ro := p.Run(verifsim.NewReplay(min), newStats(), true)
+			ro := runProp(p, verifsim.NewReplay(min), newStats(), true)
 			caseNo.Store(-1)
 			resMu.Lock()
 			rf := &ReplayFile{Property: p.ID(), Class: v.Class, Signature: v.Sig, Detail: v.Detail, Base: *base, Tier: *tier,
@@ -566,7 +597,7 @@ func doReplay(p Prop, path string) int {
 			os.Exit(1)
 		}()
 	}
-	o := p.Run(c, newStats(), true)
+	o := runProp(p, c, newStats(), true)
 	if strings.HasSuffix(rf.Class, "/native-divergence") {
 		// Go's own map order cannot be dictated: repeat
 		for n := 0; n < 200 && !hasViolation(o, rf.Class, rf.Signature); n++ {
@@ -575,7 +606,7 @@ func doReplay(p Prop, path string) int {
 			} else {
 				c = chooserFor(p, rf.Base, p.Enumerate(rf.Tier), rf.CaseIndex)
 			}
-			o = p.Run(c, newStats(), true)
+			o = runProp(p, c, newStats(), true)
 		}
 	}
 	b, _ := json.MarshalIndent(map[string]interface{}{"rendering": o.Sample, "violations": o.V}, "", " ")
